@@ -9,13 +9,14 @@
   On the implementation side the Go race detector decides the property for the executions
   it sees (real goroutines, real sync.Mutex, all six types, orders 4 and 64).
 
-  Status: the FULL discipline statement is kept as a definition and NOT yet proved. Proved:
-  read-only operations write nothing (Search/NewScanner: `C03_search_readonly_partial`,
+  Status: the FULL discipline statement is kept as a definition and NOT yet proved (its
+  write-frame half is missing). Proved: MUTUAL EXCLUSION of every mutex in every reachable
+  configuration (`C07_mutual_exclusion`); read-only operations write nothing (Search/NewScanner: `C03_search_readonly_partial`,
   cursor operations: `C04_cursor_readonly_partial`), the root pointer is only replaced by
   steps of threads that hold the tree-level mutex at that park position (`upRoot`,
   Delete's frames), and every thread holds exactly the locks of its program position.
 -/
-import Gobptree.Proofs.ConcReach
+import Gobptree.Proofs.ConcOwner
 
 namespace Gobptree.Conc
 open Gobptree
@@ -31,6 +32,41 @@ def C07_access_discipline_statement : Prop :=
     (∀ l, ((c'.owner.filter (fun p => p.1 = l)).length ≤ 1)) ∧
     (∀ id, (∀ th, c'.threads[t]? = some th → Lk.node id ∉ th.held) →
       (∀ th, c.threads[t]? = some th → Lk.node id ∉ th.held) → c'.tree.find id = c.tree.find id)
+
+theorem pair_eq_of_nodup_fst {α β : Type} (l : List (α × β)) (h : (l.map Prod.fst).Nodup) (a : α) (b1 b2 : β)
+    (h1 : (a, b1) ∈ l) (h2 : (a, b2) ∈ l) : b1 = b2 := by
+  induction l with
+  | nil => cases h1
+  | cons p l ih =>
+    rw [List.map_cons, List.nodup_cons] at h
+    cases List.mem_cons.mp h1 with
+    | inl e1 =>
+      cases List.mem_cons.mp h2 with
+      | inl e2 => rw [← e1] at e2; exact (Prod.mk.inj e2).2.symm
+      | inr m2 => exact absurd (List.mem_map.mpr ⟨(a, b2), m2, by rw [← e1]⟩) h.1
+    | inr m1 =>
+      cases List.mem_cons.mp h2 with
+      | inl e2 => exact absurd (List.mem_map.mpr ⟨(a, b1), m1, by rw [← e2]⟩) h.1
+      | inr m2 => exact ih h.2 m1 m2
+
+/-- **C07 (mutual exclusion).** In every reachable configuration — every initial tree,
+    program family and schedule — in which no thread has panicked, the owner table is
+    exactly the union of the threads' held lists, no mutex is owned twice, and therefore
+    two different threads never hold the same mutex (node mutex or `rootMutex`). -/
+theorem C07_mutual_exclusion (P : Params K) (tree : Tree K V) (progs : List (List (COp K V)))
+    (c : Config K V) (hr : Reachable (Config.init P tree progs) c) (hd : c.dead = false) :
+    (c.owner.map Prod.fst).Nodup ∧
+    (∀ l t, c.owner.count (l, t) = (heldOf c t).count l) ∧
+    ∀ (t1 t2 : Nat) (th1 th2 : Thread K V) (l : Lk),
+      c.threads[t1]? = some th1 → c.threads[t2]? = some th2 → l ∈ th1.held → l ∈ th2.held → t1 = t2 := by
+  obtain ⟨hcount, hnodup⟩ := reachable_owner _ c (init_ok P tree progs) (init_owner P tree progs) hr hd
+  refine ⟨hnodup, hcount, ?_⟩
+  intro t1 t2 th1 th2 l h1 h2 m1 m2
+  have c1 : 0 < c.owner.count (l, t1) := by
+    rw [hcount l t1]; unfold heldOf; rw [h1]; exact List.count_pos_iff.mpr m1
+  have c2 : 0 < c.owner.count (l, t2) := by
+    rw [hcount l t2]; unfold heldOf; rw [h2]; exact List.count_pos_iff.mpr m2
+  exact pair_eq_of_nodup_fst c.owner hnodup l t1 t2 (List.count_pos_iff.mp c1) (List.count_pos_iff.mp c2)
 
 /-- **C07 (partial): the root pointer is replaced only under the tree-level mutex.** The
     only continuations whose code assigns `tree.root`/`tree.depth` are `upRoot` (root split)
@@ -52,5 +88,6 @@ theorem C07_leaf_written_under_leaf_lock_partial (key : K) (f : Option V → V) 
 
 end Gobptree.Conc
 
+#print axioms Gobptree.Conc.C07_mutual_exclusion
 #print axioms Gobptree.Conc.C07_root_written_under_tree_lock_partial
 #print axioms Gobptree.Conc.C07_leaf_written_under_leaf_lock_partial
